@@ -25,6 +25,8 @@ pub struct Ctx {
 	pub only_type: Option<String>,
 	pub replay: Option<String>,
 	pub mode: String,
+	/// explicit per-type budget (used by the interpreter / sanitizer stages)
+	pub values: Option<u64>,
 }
 
 impl Ctx {
@@ -46,6 +48,9 @@ impl Ctx {
 
 	/// `quick`, `thorough` budget; divided by `slow` when running under Miri / valgrind
 	pub fn budget(&self, quick: u64, thorough: u64) -> u64 {
+		if let Some(v) = self.values {
+			return v.max(1);
+		}
 		let b = match self.tier {
 			Tier::Quick => quick,
 			Tier::Thorough => thorough,
@@ -54,7 +59,7 @@ impl Ctx {
 	}
 
 	pub fn is_slow(&self) -> bool {
-		self.slow > 1
+		self.slow >= 20
 	}
 }
 
